@@ -1,10 +1,10 @@
 package main
 
 import (
-	"github.com/mmcloughlin/avo/gotypes"
 	"bytes"
 	"errors"
 	"fmt"
+	"github.com/mmcloughlin/avo/gotypes"
 	"io"
 	"strings"
 
@@ -35,9 +35,9 @@ type bopGen struct {
 }
 
 func c18Ops(r *RNG, st *struct {
-	hasFunc  bool
-	labels   int
-	sigKind  int
+	hasFunc bool
+	labels  int
+	sigKind int
 }) bopGen {
 	if st.sigKind == 1 && r.Chance(12) {
 		return loadPathOp(r)
@@ -131,6 +131,7 @@ func c18Ops(r *RNG, st *struct {
 }
 
 func c18(c *Ctx) {
+	defer globalAPI(c)
 	o := c.Out
 	rng := NewRNG(c.Seed + 1800)
 	n := 600
@@ -367,7 +368,6 @@ func mustFile(ctx *build.Context) *ir.File {
 	f, _ := ctx.Result()
 	return f
 }
-
 
 // loadPathOp: Load(<parameter>.<chain of component steps>, RCX) on the long signature; the expected
 // outcome is computed inside Coq by the component algebra of Model/Layout.v (path_outcome)
